@@ -100,7 +100,8 @@ T = {
 
 
 def main():
-    have = sorted(f[:-3].upper() for f in os.listdir(os.path.join(ROOT, "props")) if f.startswith("c") and f.endswith(".py"))
+    # only modules explicitly marked ready are claimed (others may be work in progress)
+    have = json.load(open(os.path.join(ROOT, "tools", "ready.json")))
     disabled = {}
     dpath = os.path.join(ROOT, "tools", "disabled.json")
     if os.path.exists(dpath):
